@@ -730,7 +730,7 @@ loop:
 			if strm == nil && fr.Type() == FrameContinuation && discarded.stream == fr.Stream() {
 				// the header block of a stream that is not being served goes on
 				if err := sc.discardHeaderBlock(fr, &discarded); err != nil {
-					sc.writeGoAway(fr.Stream(), CompressionError, err.Error())
+					sc.writeGoAway(fr.Stream(), discardErrorCode(err), err.Error())
 					break loop
 				}
 
@@ -790,7 +790,7 @@ loop:
 						// their header block still changes the compression
 						// state both ends share (4.3), so it is decoded.
 						if err := sc.discardHeaderBlock(fr, &discarded); err != nil {
-							sc.writeGoAway(fr.Stream(), CompressionError, err.Error())
+							sc.writeGoAway(fr.Stream(), discardErrorCode(err), err.Error())
 							break loop
 						}
 					case FrameData:
@@ -833,7 +833,7 @@ loop:
 					// the compression state both ends share (RFC 7540 4.3).
 					if fr.Type() == FrameHeaders {
 						if err := sc.discardHeaderBlock(fr, &discarded); err != nil {
-							sc.writeGoAway(fr.Stream(), CompressionError, err.Error())
+							sc.writeGoAway(fr.Stream(), discardErrorCode(err), err.Error())
 							break loop
 						}
 					}
@@ -1512,6 +1512,17 @@ type discardedBlock struct {
 	fields  int
 }
 
+// discardErrorCode is the GOAWAY code for an error from discardHeaderBlock: its
+// own, when it names one, and otherwise a decoding failure.
+func discardErrorCode(err error) ErrorCode {
+	var e Error
+	if errors.As(err, &e) && e.frameType == FrameGoAway {
+		return e.Code()
+	}
+
+	return CompressionError
+}
+
 // discardHeaderBlock runs a header block fragment through the HPACK decoder
 // for its effect on the dynamic table only. Like any header block it may go on
 // in CONTINUATION frames, split at any octet.
@@ -1543,6 +1554,13 @@ func (sc *serverConn) discardHeaderBlock(fr *FrameHeader, blk *discardedBlock) e
 		b, got, err = sc.dec.nextField(hf, blk.fields == 0, blk.fields, b)
 		if err != nil {
 			if errors.Is(err, ErrUnexpectedSize) && !fr.Flags().Has(FlagEndHeaders) {
+				// The same bound as for a block that is being served: a
+				// field that never completes must not be buffered for as
+				// long as the peer keeps sending CONTINUATION frames.
+				if sc.maxHeaderList > 0 && len(pb) > 4*sc.maxHeaderList {
+					return NewGoAwayError(EnhanceYourCalm, "header list exceeds the maximum size")
+				}
+
 				blk.pending = append(blk.pending, pb...)
 
 				return nil
